@@ -122,11 +122,11 @@ def gen_turbo(rng, ndim=None, maxn=6, rot=None, allow_sel=True):
             sel = [0 if rng.random() < .15 else 1 for _ in range(ntot)]
             # at least one cell with all its nodes selected (a meshing without any active mesh is not a meshing:
             # Indirection treats its empty map as "no indirection")
-            def rk(t):
+            def rank_of(t):
                 r = 0
                 for k, i in reversed(list(zip(nx, t))): r = r * k + i
                 return r
-            if any(all(sel[rk([c[d] + o[d] for d in range(n)])] for o in itertools.product([0, 1], repeat=n))
+            if any(all(sel[rank_of([c[d] + o[d] for d in range(n)])] for o in itertools.product([0, 1], repeat=n))
                    for c in itertools.product(*[range(k - 1) for k in nx])): break
     return {'n': n, 'nx': nx, 'dx': dx, 'x0': x0, 'ang': ang, 'rotkind': rk if ang else 'none', 'pol': pol, 'sel': sel}
 
